@@ -8,6 +8,7 @@ CONSTANTS
   MaxCalls <- MC_MaxCalls
   Worlds <- MC_Worlds
   Problems <- MC_Problems
+  Region <- MC_Region
   ValidateRoots <- MC_ValidateRoots
   RestoreRng <- MC_RestoreRng
   SetupUsesPlannerRng <- MC_SetupUsesPlannerRng
@@ -22,6 +23,7 @@ INVARIANTS
   C02_Endpoints
   C03_LinksCovered
   C03_PathFollowsLinks
+  C04_InRegion
   C05_Step
   C06_OkImpliesReachable
   C07_Provenance
